@@ -869,7 +869,17 @@ pub fn write_with(f: &WFile, enc: Option<&WEnc>) -> WOutput {
                             parms.push((B::from("Colors"), AObj::Int(1)));
                             parms.push((B::from("BitsPerComponent"), AObj::Int(8)));
                         }
-                        d.push((B::from("DecodeParms"), AObj::Dict(parms)));
+                        // one file in four (decided by the data, not by the tape, so that older replay files render as
+                        // before): the predictor stream wrapped in ASCII85, parameters as an array parallel to the filters
+                        if crate::engine::fnv64(&data) % 4 == 0 {
+                            w.feat.insert("xref-stream-filter-chain");
+                            data = crate::refimpl::filt::ascii85::encode(&data, &Default::default());
+                            d.retain(|(k, _)| k.0 != b"Filter");
+                            d.push((B::from("Filter"), AObj::Array(vec![AObj::name("ASCII85Decode"), AObj::name("FlateDecode")])));
+                            d.push((B::from("DecodeParms"), AObj::Array(vec![AObj::Null, AObj::Dict(parms)])));
+                        } else {
+                            d.push((B::from("DecodeParms"), AObj::Dict(parms)));
+                        }
                     }
                 }
                 _ => {}
